@@ -14,9 +14,16 @@ Slice == IF IOEnv.MEGA_SLICE = "" THEN 0 ELSE (CHOOSE n \in 0..(Slices - 1) : To
 T1 == SetToSeq(TypePool)
 Pairs == SetToSeq({<<p, t, ia>> : p \in PrefixPool, t \in TypePool, ia \in {0, 1}})
 Picked == SelectSeq([i \in 1..Len(Pairs) |-> i], LAMBDA i : i % Slices = Slice)
-NRoot == Len(T1) + Len(Picked)
+(* two fields whose nested containers agree in their outer levels and differ only in the innermost type *)
+Extras == << <<Field("a", 0, Arr(Arr(U(8), 2), 3), 0), Field("b", 1, Arr(Arr(I(8), 2), 3), 0)>>,
+             <<Field("a", 0, Dyn(Opt(U(8))), 0), Field("b", 1, Dyn(Opt(I(16))), 0)>>,
+             <<Field("a", 1, Opt(Arr(U(3), 2)), 0), Field("b", 0, Opt(Arr(I(3), 2)), 0)>>,
+             <<Field("a", 0, Arr(Dyn(F32), 2), 1), Field("b", 1, Arr(Dyn(U(32)), 2), 1)>>,
+             <<Field("a", 0, Dyn(Dyn(En("Ec"))), 1), Field("b", 1, Dyn(Dyn(U(3))), 1)>> >>
+NRoot == Len(T1) + Len(Picked) + Len(Extras)
 RName(i) == "R" \o ToString(i)
 RootFields(i) == IF i <= Len(T1) THEN <<Field("a", 0, T1[i], 0)>>
+                 ELSE IF i > Len(T1) + Len(Picked) THEN Extras[i - Len(T1) - Len(Picked)]
                  ELSE LET q == Pairs[Picked[i - Len(T1)]] IN <<Field("a", q[3], q[1], 1), Field("b", 1 - q[3], q[2], 0)>>
 SidOf(i) == CASE i = 1 -> 0 [] i = 5 -> 1 [] i = 9 -> 10 [] i = 13 -> 2047 [] OTHER -> 16 + i
 BusNames == << <<98>>, <<98, 50>>, <<99, 97, 110>>, <<109, 97, 105, 110>> >>      \* "b", "b2", "can", "main"
